@@ -130,6 +130,44 @@ package client
 //@   ensures [check-first] callCount(checkResponseCache) == 1 && callSeq(Lock, 0) < callSeq(checkResponseCache, 0) && callSeq(checkResponseCache, 0) < callSeq(Unlock, 0)
 //@   ensures [hit-no-handler] callRes(checkResponseCache, 0, 0) ==> notCalled(handle) && notCalled(processResponse)
 //@   ensures [error-no-handler] callRes(checkResponseCache, 0, 1) != nil ==> notCalled(handle) && notCalled(processResponse)
+//@   ensures [activity] called(Notify)
 //@   ensures [handler-once] callCount(handle) <= 1
 //@   ensures [handler-under-lock] called(handle) ==> callSeq(checkResponseCache, 0) < callSeq(handle, 0) && callSeq(handle, 0) < callSeq(processResponse, 0) && callSeq(processResponse, 0) < callSeq(Unlock, 0)
 //@   ensures [store-same-id] called(handle) ==> callCount(processResponse) == 1 && callArg(processResponse, 0, 2) == old(req.msg.MessageID) && callArg(processResponse, 0, 1) == old(req.msg.Type) && callArg(processResponse, 0, 3) == w
+
+// ---- C18: every received datagram message counts as activity --------------------------------------
+//
+// A datagram that decodes and is not dropped by the request monitor refreshes the inactivity monitor
+// before anything can consume it (pings, stray ACK/RST handled inline included); so does every request
+// that reaches handleReq.
+//
+// Assumed contracts (unverified surroundings of Process):
+//
+//@ func (Session) MaxMessageSize() (n uint32)
+//@   trusted
+//
+//@ func (Session) Context() (c context.Context)
+//@   trusted
+//
+//@ func (*Conn) Context() (c context.Context)
+//@   trusted
+//
+//@ func (*Conn) AcquireMessage(ctx context.Context) (m *pool.Message)
+//@   trusted
+//@   ensures m != nil
+//
+//@ func (*Conn) Sequence() (s uint64)
+//@   trusted
+//
+//@ func (*Conn) checkMyMessageID(req *pool.Message)
+//@   trusted
+//
+//@ func (*Conn) handleSpecialMessages(r *pool.Message) (handled bool)
+//@   trusted
+//
+//@ func (*Conn) Process(cm *coapNet.ControlMessage, datagram []byte) (err error)
+//@   requires cc != nil
+//@   modifies anything
+//@   opaque-calls pure
+//@   ensures [every-message-counts] called(UnmarshalWithDecoder) && callRes(UnmarshalWithDecoder, 0, 1) == nil && called(requestMonitor) && callRes(requestMonitor, 0, 1) == nil && !callRes(requestMonitor, 0, 0) ==> called(Notify)
+//@   ensures [counts-before-consumed] called(handleSpecialMessages) ==> called(Notify) && callSeq(Notify, 0) < callSeq(handleSpecialMessages, 0)
